@@ -99,6 +99,11 @@ CHECKS["C13"] = dict(engine="Capture", ref="3 (C13)",
     note="Trusted: TLC; bash/printf/yes/head. Known findings: strip_ansi_escaping removes non-ANSI control bytes (third-party stripper); a Cram payload containing the divider prefix aborts execution.",
     technique="TLA+ spec of recorded stream + CR LF / substitution / divider machines, TLC check and enumeration, commands run through both real executors, TLC comparison of recorded bytes")
 
+CHECKS["C18"] = dict(engine="WorkDirs", ref="3 (C18)",
+    text="specs/WorkDirs.tla models the directory lifecycle of scrut processes (per document: NewEnv creates execution.* + __tmp, or temp.* inside --work-directory, or kept directories; InitTestFile creates the uniquely named working directory; Execute; DropEnv) with several processes interleaved by TLC, and checks Clean (at exit nothing the process created remains unless --keep-temporary-directories; W remains) and Separate (no two documents of any process share a working directory in default mode). TLC enumerates 360 per-process scenarios (mode x outcome classes pass / fail / timeout / skip of 1-2 documents x identical file names x test cases that leave / unset / overwrite the documented variables). Experiments of 1-3 real scrut processes started at the same time under one private temporary root run these scenarios: every test case logs its working directory and the documented variables, the driver snapshots the temporary root after each exit and again after a grace period longer than the longest command. TLC judges every experiment: nothing left (immediately and later), W kept and clean, one working directory per document and none shared, TESTDIR / TESTFILE / TESTSHELL / TMPDIR / LANG / LANGUAGE / LC_ALL / TZ / COLUMNS / CDPATH / GREP_OPTIONS / SCRUT_TEST=<path>:<line of its own $ line> as documented for every test case, also after a previous test case unset or overwrote them.",
+    note="Trusted: TLC; the kernel and tempfile crate for real file-system behaviour (only sampled). Parse errors and a missing shell create no directories at all (covered by C20). Hook H4 was not needed: everything is observable from outside.",
+    technique="TLA+ spec of the directory lifecycle with interleaved processes, TLC check + enumerated scenarios run as concurrent real processes, TLC judgement of directory snapshots and per-test environment logs")
+
 NOT_YET = {
 }
 
@@ -154,6 +159,7 @@ def main():
             {"name": "Render", "path": "specs/Render.tla", "serves_properties": ["C19"], "kind_free_text": "hunk assembler of the diff renderer composed with DiffAlgo; MC_Render (ShowsAll + GEN), RenderTrace (judgement of real renderings)"},
             {"name": "ShellCarrier", "path": "specs/ShellCarrier.tla", "serves_properties": ["C12"], "kind_free_text": "shell state, operations, reference session and per-process carrier; MC_ShellCarrier (MC + exhaustive/simulated GEN), ShellTrace"},
             {"name": "Capture", "path": "specs/Capture.tla", "serves_properties": ["C13"], "kind_free_text": "recorded-stream reference, CR LF algorithm, template substitution and divider protocol machines; MC_Capture, CaptureTrace"},
+            {"name": "WorkDirs", "path": "specs/WorkDirs.tla", "serves_properties": ["C18"], "kind_free_text": "directory lifecycle of interleaved scrut processes (Clean, Separate) and the observation predicate C18ok; MC_WorkDirs, WorkDirsTrace"},
             {"name": "Rules", "path": "specs/Rules.tla", "serves_properties": ["C04"],
              "kind_free_text": "TLA+ reference semantics of the expectation kinds; MC_Rules (enumeration + sanity), RulesTrace (re-evaluation of implementation answers)"},
         ],
